@@ -549,7 +549,7 @@ func init() {
 			if t == "thorough" {
 				return 10 * time.Minute
 			}
-			return 2 * time.Minute
+			return 6 * time.Minute
 		},
 		Run: func(c *core.Case) *core.Result {
 			if c.Idx%4 == 3 {
